@@ -20,7 +20,11 @@ PROPS = {
         "rule": "rapid-generated programs (live profile: 1-8 steps or wide fan-in of 2-40 producers into one output, outcomes incl. "
                 "crash / deploy failure / never-ending steps, foreach, tags) run under a 10 s watchdog; oracle = returns exactly one "
                 "declared output or an error, no hang (two goroutine dumps 1 s apart with identical blocked engine frames), promptness "
-                "when the reference says nothing is producible. non-trivial = >=2 steps and (a non-success outcome or fan-in >= 21)",
+                "when the reference says nothing is producible (every generated plugin step has a 300 ms closure timeout, DESIGN 13.3). In an "
+                "eighth of the cases the motif 'a stage output becomes impossible': a victim ending in one of 9 ways (success, error / alt output, "
+                "crash, malformed output, failed deployment, crash while starting through a write-refusing connection or a schema mismatch, disabled) "
+                "x a follower whose wait_for needs one of 8 stage outputs of the victim x a never-ending bystander. Cases of open finding K14 are "
+                "recognised with a second, strict reference and tamed (counted). non-trivial = >=2 steps and (a non-success outcome or fan-in >= 21)",
         "quick": {"cases": 1200, "shards": 12, "shrinktime": "40s"},
         "thorough": {"cases": 20000, "shards": 16, "shrinktime": "180s", "timeout_s": 3300},
         "assumptions": RUN_ASSUME + ["a watchdog expiry without blocked-goroutine evidence is counted as inconclusive, not as a violation"],
@@ -81,7 +85,9 @@ PROPS = {
                 "+-Inf, +-0, subnormal, +-2^63 neighbourhood, extreme ints, empty / non-ASCII / long strings, decimal strings around the int64 "
                 "limits, nested lists and maps) are executed in a worker process under RLIMIT_AS; oracle = no panic / process death, result "
                 "validates against Output(parameter types), two calls agree, and the independent laws (floatToInt truncates/saturates/is monotonic, "
-                "X->string->X round trips, case/split definitions, ceil/floor/round/abs = math.*, bindConstants pairing). "
+                "X->string->X round trips, case/split definitions, ceil/floor/round/abs = math.*, bindConstants pairing; typed bindConstants: argument types derived from generated values of a "
+                "family with name collisions (objects with equal ids and different properties, maps with different value types), Output() asked for "
+                "exactly those types and the result validated / unserialised against it, the worker keeping its history for 200 cases). "
                 "non-trivial = the argument list contains a boundary-class value; distinct = FNV-64 of (law, function, arguments)",
         "quick": {"cases": 36000, "shards": 12, "shrinktime": "20s"},
         "thorough": {"cases": 960000, "shards": 16, "shrinktime": "60s", "timeout_s": 3300},
@@ -92,7 +98,7 @@ PROPS = {
         "test": "TestC10", "binary": "plain", "level": "exploration",
         "rule": "rapid-generated programs (all tags incl. soft-optional, stop_if, foreach, deploy / enabled / wait_for expressions) are prepared "
                 "and the engine's DAG (nodes + typed edges read through ListNodes / OutstandingDependencies / ListInboundConnections) must EQUAL the "
-                "graph derived from the text by the reference (both directions); then single-point corruptions of the accepted program (22 kinds: "
+                "graph derived from the text by the reference (both directions); then single-point corruptions of the accepted program (24 kinds: stop_if on a step without cancellation handler, non-numeric closure timeout, "
                 "cycles through input / wait_for / one-of option, renamed step / stage / output / field / input field, stage without outputs, unknown "
                 "function, wrong arity, missing required input, ill-typed literals, unknown fields / keys / plugin step, no outputs, bad version) "
                 "must each be rejected by Prepare. non-trivial = accepted program with a tag or > 60 edges; every corruption counts",
@@ -143,7 +149,9 @@ PROPS = {
         "rule": "rapid-generated programs (racy profile: never-ending steps, stop_if, soft-optional, foreach with failing items, generated reactions "
                 "to cancellation and closure timeouts) are driven down every exit path: natural end with an output or an error, caller cancellation "
                 "placed by a trigger on a generated instant of a generated step's life (before anything, after N ms, at/after deploy-begin with the "
-                "deployment held, at exec-start, at exec-end), failure of the launch of a later step (harness step kind vstartfail), and failing "
+                "deployment held - also for 30 s, which the context-honouring scripted deployer only leaves when cancelled -, at exec-start, at exec-end), "
+                "natural runs in which a step force-closes itself as the run ends (stop_if + ignored cancel signal + closure timeout 0-40 ms + a "
+                "deployment that takes 30-200 ms to go away), failure of the launch of a later step (harness step kind vstartfail), and failing "
                 "schema probes during Prepare (deploy failure, write-refusing connection). oracle, read immediately when Execute / Prepare returns: "
                 "deployments == connection closes for that phase, no plugin execution in progress, and no goroutine with engine / pluginsdk / vplug "
                 "frames still alive after polling <= 2 s. non-trivial = a deployment or execution was live when the run decided to end",
@@ -154,7 +162,7 @@ PROPS = {
     "C06": {
         "test": "TestC06", "binary": "plain", "level": "fault_enumeration",
         "rule": "rapid-generated programs (never-ending steps, foreach with items in flight, steps with and without cancel-signal handler, generated "
-                "closure_wait_timeout 20-300 ms and reaction to the signal: answer at once / after d ms / ignore) with the caller's context cancelled "
+                "closure_wait_timeout 0 or 20-300 ms, deployments that take 5-80 ms to go away, a deployment held longer than the bound, and reaction to the signal: answer at once / after d ms / ignore) with the caller's context cancelled "
                 "by a trigger at a generated instant of a generated step's life (before anything, after N ms, on deploy-begin, while the deployment is "
                 "held, on exec-start, on exec-end, exec-start + N ms). oracle: return within 5 s x (1 + nesting) + sum of closure timeouts + 2 s after "
                 "the cancellation; every execution that started has ended, never-ending ones only after a logged cancel signal / closed connection; "
@@ -199,7 +207,8 @@ PROPS = {
         "test": "TestC14", "binary": "sched", "level": "exploration",
         "rule": "generated histories over ONE prepared workflow (and a twin prepared from the same text): 1-4 rounds, each a single run or 2-6 "
                 "runs started together (start offsets 0-5 ms) with equal or different inputs, some on the twin, some cancelled after 1-30 ms, some "
-                "failing because their run-specific script makes steps fail; optionally the text is prepared again between rounds. Plugin keys carry "
+                "failing because their run-specific script makes steps fail or because an expression (stringToInt of the input string, index into the "
+                "input list, division by the input integer - also as an output field) fails for that run's input only; optionally the text is prepared again between rounds. Plugin keys carry "
                 "the run key, so every run has its own behaviours and its own slice of the plugin log. oracle: every uncancelled run returns what "
                 "the reference predicts for an isolated first run with its input; its slice of the log satisfies C02's dataflow check (no foreign or "
                 "stale data); the DAG dumps of both prepared workflows are unchanged after all runs. non-trivial = two runs overlap in time or a "
@@ -212,7 +221,8 @@ PROPS = {
         "test": "TestC09", "binary": "sched", "level": "exploration", "enumerative": True, "exhaustive_in": "thorough",
         "rule": "(1) single-site sweep: for every schedule point the instrumenter inserts into workflow.go and the two providers (lock, unlock, "
                 "channel send / receive, select and wake-up, wait-group, cancel, goroutine start, entry of every run-loop / running-step method; "
-                "~285 sites) a 60 ms delay on the first 3 hits - longer than the fallback detector's 3 x 10 ms window - on each of 14 canonical "
+                "~285 sites) a delay longer than the fallback detector's 3 x 10 ms window - 60 ms on the first 3 passes, 60 ms on the last pass (sites "
+                "passed more than 3 times) and 40 ms on every pass (4-12 passes); pairs whose motif never passes the site are skipped - on each of 14 canonical "
                 "workflows whose meaning fixes one result (single, chain, wait_for, enabled from upstream, deploy expression, diamond, failing "
                 "prerequisite, crash, deploy failure, disabled + or-disabled, one-of consumer, wait-optional with failing source, foreach, nested "
                 "foreach); quick = a VERIF_SEED-chosen quarter of the sites, thorough = all (exhaustive). (2) rapid: random deterministic "
